@@ -369,6 +369,28 @@ func checkC36(p *Prog, r *Result, tier string) {
 		if lit, ok := unparen(retryCall.Args[0]).(*ast.FuncLit); ok {
 			op := p.ByLit[lit]
 			rv := recvObj(RM)
+			msgObj := RM.paramObj(0)
+			// a retry operation that only forwards to a method of the stream (`return s.recvOnNewStream(logger, m)`) is read
+			// in that method: its receiver is the stream, its parameter bound to m is the message
+			if len(op.Body.List) == 1 {
+				if rt, ok := op.Body.List[0].(*ast.ReturnStmt); ok && len(rt.Results) == 1 {
+					if c, ok := unparen(rt.Results[0]).(*ast.CallExpr); ok {
+						if sel, ok := unparen(c.Fun).(*ast.SelectorExpr); ok && op.objOf(sel.X) == rv {
+							if H := p.ByObj[op.Callee(c)]; H != nil && H.Body != nil && H.Pkg == RM.Pkg && recvObj(H) != nil {
+								var hm types.Object
+								for i, a := range c.Args {
+									if op.objOf(a) == msgObj {
+										hm = H.paramObj(i)
+									}
+								}
+								if hm != nil {
+									op, rv, msgObj = H, recvObj(H), hm
+								}
+							}
+						}
+					}
+				}
+			}
 			var open, install, resend, recv nodeRef
 			var streamObj types.Object
 			op.inspectBody(func(n ast.Node) bool {
@@ -393,7 +415,7 @@ func checkC36(p *Prog, r *Result, tier string) {
 					}
 				case *ast.ReturnStmt:
 					if len(x.Results) == 1 {
-						if c, ok := unparen(x.Results[0]).(*ast.CallExpr); ok && isMethod(op, c, "RecvMsg") && len(c.Args) == 1 && op.objOf(c.Args[0]) == RM.paramObj(0) {
+						if c, ok := unparen(x.Results[0]).(*ast.CallExpr); ok && isMethod(op, c, "RecvMsg") && len(c.Args) == 1 && op.objOf(c.Args[0]) == msgObj {
 							recv = op.find(x)
 						}
 					}
